@@ -14,7 +14,13 @@ Inductive aop :=
 | ACopyConstruct (t : bool)              (* { P c(pt); } *)
 | AMoveConstruct (t : bool)              (* { P c(move(pt)); } *)
 | ASwap                                  (* p0.swap(p1) *)
-| ASelfSwap (t : bool).
+| ASelfSwap (t : bool)
+(* construction / assignment from caller-side objects e0 .. e(k-1) (built in index order, destroyed in
+   reverse order: local variables, or the members of a pair<U0, U1> whose members convert to T0, T1) *)
+| ACtorCopyEach                          (* { P c(e0, e1, ...); }               pair(T1 const&, T2 const&), tuple(Ts const&...), pair(pair<U1,U2> const&) *)
+| ACtorMoveEach                          (* { P c(move(e0), move(e1), ...); }   pair(U1&&, U2&&), tuple(Args&&...), pair(pair<U1,U2>&&) *)
+| AConvCopyAssign (t : bool)             (* pair<U0,U1> q(...); pt = q; *)
+| AConvMoveAssign (t : bool).            (* pair<U0,U1> q(...); pt = move(q); *)
 
 Section Agg.
 Variable fl : bool.
@@ -31,6 +37,14 @@ Definition agg_values (c : nat) : list how := map (fun j => Value (Z.of_nat (10 
 Definition agg_init : list event := constructs 0 0 (agg_values 0) ++ constructs 1 0 (agg_values 1).
 Definition agg_final (s : nat * nat) : list event := agg_destroy 0 ++ agg_destroy 1.
 
+(* the caller-side objects: member j is built from the value 50 + j *)
+Definition agg_ext_values : list Z := map (fun j => Z.of_nat (50 + j)) (seq 0 k).
+Definition agg_ext_destroys : list event := map (fun j => Destroy (Ext j)) (rev (seq 0 k)).
+Definition agg_with_ext (body : list event) : list event :=
+  ext_constructs 0 agg_ext_values ++ body ++ agg_ext_destroys.
+Definition agg_assign_ext (c : nat) (hk : loc -> how) : list event :=
+  map (fun j => Assign (Slot c j) (hk (Ext j))) (seq 0 k).
+
 Definition step_agg (s : nat * nat) (m : vmem) (o : aop) : G (nat * nat) :=
   let done (evs : list event) : G (nat * nat) := exe emit evs ; ret s in
   match o with
@@ -42,6 +56,10 @@ Definition step_agg (s : nat * nat) (m : vmem) (o : aop) : G (nat * nat) :=
   | AMoveConstruct t => done (agg_construct 2 (cid t) (mv fl) ++ agg_destroy 2)
   | ASwap => done (agg_swap 0 1)
   | ASelfSwap t => done (agg_swap (cid t) (cid t))
+  | ACtorCopyEach => done (agg_with_ext (constructs 2 0 (map Copy (exts k)) ++ agg_destroy 2))
+  | ACtorMoveEach => done (agg_with_ext (constructs 2 0 (map (mv fl) (exts k)) ++ agg_destroy 2))
+  | AConvCopyAssign t => done (agg_with_ext (agg_assign_ext (cid t) Copy))
+  | AConvMoveAssign t => done (agg_with_ext (agg_assign_ext (cid t) (mv fl)))
   end.
 
 Definition agg_self (o : aop) : option bool :=
